@@ -804,6 +804,8 @@ class Runner:
                         if isinstance(dt, T.Ref):
                             recv_cls = dt.cls
                 for k, c in S.CONTRACTS.items():
+                    if '#' in k:
+                        continue        # a second contract (variant) of a body: callers only ever see the plain contract
                     if container_like and recv_cls is None:
                         continue        # a method of a by-value container, not a call under contract
                     if recv_cls is not None and '.' in c.qual and not c.qual.endswith('.__init__'):
